@@ -35,6 +35,11 @@ import (
 	"github.com/dappledger/AnnChain/gemmill/types"
 )
 
+// errUndecodableWALLine: a wal line that is not a complete record
+type errUndecodableWALLine struct{ err error }
+
+func (e errUndecodableWALLine) Error() string { return fmt.Sprintf("Error reading json data: %v", e.err) }
+
 // Unmarshal and apply a single message to the consensus state
 // as if it were received in receiveRoutine
 // Lines that start with "#" are ignored.
@@ -49,7 +54,7 @@ func (cs *ConsensusState) readReplayMessage(msgBytes []byte, newStepCh chan inte
 	wire.ReadJSON(&msg, msgBytes, &err)
 	if err != nil {
 		fmt.Println("MsgBytes:", msgBytes, string(msgBytes))
-		return fmt.Errorf("Error reading json data: %v", err)
+		return errUndecodableWALLine{err}
 	}
 
 	// for logging
@@ -146,6 +151,12 @@ func (cs *ConsensusState) catchupReplay(csHeight int64) error {
 		// it will attempt to eg double sign but we can just ignore it
 		// since the votes will be replayed and we'll get to the next step
 		if err := cs.readReplayMessage([]byte(line), nil); err != nil {
+			if _, torn := err.(errUndecodableWALLine); torn {
+				// a record cut short by a crash (they are written one per line): skip it,
+				// the records written after the restart that followed are still good
+				log.Warn("Replay: skipping undecodable wal line", zap.String("error", err.Error()))
+				continue
+			}
 			return err
 		}
 	}
